@@ -417,6 +417,9 @@ def replay(ctx, case):
     if exp.undecided:
         print('reference undecided:', exp.undecided); return True
     mm = compare(exp, got, q.order)
+    if case.get('row') is not None and any(row_id(m) == case['row'] for m in mm):
+        mm = [m for m in mm if row_id(m) == case['row']]     # the recorded row only (other rows may show other findings)
+    elif case.get('row') is not None and case.get('position') in ('projT', 'filter', 'order'): mm = []
     for m in mm[:8]: print('mismatch:', m)
     print('expected rows %d (%s), got rows %d' % (len(exp.rows), exp.mode, len(got)))
     return not mm
